@@ -2,6 +2,7 @@ package main
 
 import (
 	"encoding/json"
+	"errors"
 	"fmt"
 	"reflect"
 	"sort"
@@ -31,6 +32,11 @@ func padText(p Pad, inSource bool) string {
 			return "{##}"
 		}
 		return "{#" + strings.Repeat("c", p.Len-4) + "#}"
+	case "d": // dashed print tags of the empty string surrounded by blanks: many tokens, trimmed to nothing
+		if !inSource {
+			return ""
+		}
+		return strings.Repeat("  {{- '' -}}  ", p.Len/14)
 	case "e": // print tags that print nothing: many tokens, no output
 		if !inSource {
 			return ""
@@ -88,16 +94,17 @@ func sourceOf(ps []Piece, pads []Pad) string {
 
 // Value is the spec's tagged value record.
 type Value struct {
-	T  string  `json:"t"`
-	B  bool    `json:"b,omitempty"`
-	I  int     `json:"i,omitempty"`
-	M  int     `json:"m,omitempty"`
-	E  int     `json:"e,omitempty"`
-	S  []int   `json:"s,omitempty"`
-	Xs []Value `json:"xs,omitempty"`
-	Ks []Value `json:"ks,omitempty"`
-	Vs []Value `json:"vs,omitempty"`
-	G  string  `json:"g,omitempty"`
+	T    string  `json:"t"`
+	B    bool    `json:"b,omitempty"`
+	I    int     `json:"i,omitempty"`
+	M    int     `json:"m,omitempty"`
+	E    int     `json:"e,omitempty"`
+	S    []int   `json:"s,omitempty"`
+	Xs   []Value `json:"xs,omitempty"`
+	Ks   []Value `json:"ks,omitempty"`
+	Vs   []Value `json:"vs,omitempty"`
+	G    string  `json:"g,omitempty"`
+	Kind string  `json:"kind,omitempty"`
 	// objects (C20)
 	Shape string  `json:"shape,omitempty"`
 	Ptr   bool    `json:"ptr,omitempty"`
@@ -131,6 +138,19 @@ func toGo(v Value) interface{} {
 		return f
 	case "str":
 		return textOf(v.S, nil, false)
+	case "gostr":
+		txt := textOf(v.S, nil, false)
+		switch v.Kind {
+		case "bytes":
+			return []byte(txt)
+		case "named":
+			return namedString(txt)
+		case "stringer":
+			return stringerValue{txt}
+		case "err":
+			return errors.New(txt)
+		}
+		return txt
 	case "list":
 		switch v.G {
 		case "strs":
@@ -332,3 +352,9 @@ func resolvePads(tp map[string][]Piece, pads []Pad) []Pad {
 	}
 	return out
 }
+
+type namedString string
+
+type stringerValue struct{ s string }
+
+func (v stringerValue) String() string { return v.s }
